@@ -93,9 +93,9 @@ def _matches(t, prefix, ns, nc):
 
 
 def c20_lookup(pi: int, ns: int, nc: int, use_ns: bool, use_nc: bool) -> bool:
-    prefix = pick(PREF, pi)
+    prefix = pick(P["pref"], pi)
     a = ns if fork(use_ns) else None
-    b = nc if fork(use_nc) else None
+    b = enum(nc, 0, 4) if fork(use_nc) else None
     got = tunings.get_tunings(prefix, a, b)
     want = [t for t in TUN if _matches(t, prefix, a, b)]
     if sorted(id(x) for x in got) != sorted(id(x) for x in want):
@@ -321,18 +321,27 @@ def claims(tier):
     for lo in range(0, n, step):
         hi = min(n, lo + step)
         cl.append(Claim("find_frets[t%d-%d]" % (lo, hi - 1), c20_find_frets, params={"lo": lo, "hi": hi}, group="c20_find_frets", pre=[lambda ti, p, maxfret: P["lo"] <= ti < P["hi"] and 0 <= p <= 127 and 0 <= maxfret <= 30], timeout=1200 if q else 3000, bounds="registered tunings %d..%d of %d; note pitch 0..127 and maxfret 0..30 symbolic" % (lo, hi - 1, n)))
-    cl.append(Claim("get_note", c20_get_note, pre=[lambda ti, s, f: 0 <= ti < n and -(10 ** 6) <= s <= 10 ** 6 and -(10 ** 6) <= f <= 10 ** 6], timeout=1200 if q else 3000, bounds="all %d tunings; string and fret: every integer with |x| <= 10^6 (symbolic; the error message renders them)" % n))
-    cl.append(Claim("lookup", c20_lookup, pre=[lambda pi, ns, nc: 0 <= pi < len(PREF) and 0 <= ns <= 8 and 0 <= nc <= 3], timeout=1200 if q else 3000, bounds="get_tunings / get_tuning: %d instrument names, proper prefixes and non-matching strings; string count 0..8 and course count 0..3 symbolic, each optional" % len(PREF)))
-    small3 = [t for t in SMALL if t.count_strings() <= 4][: (4 if q else 12)]
-    cl.append(Claim("fingering[<=4 strings]", c20_fingering, params={"tunings": small3, "maxn": 2, "span": 12 if q else 20}, group="c20_fingering", pre=[lambda ti, n, md: 0 <= ti < len(P["tunings"]) and 1 <= n <= P["maxn"] and 2 <= md <= 5], timeout=1500 if q else 3200, bounds="find_fingering on %d tunings with <= 4 strings: 1..2 notes with pitches symbolic within %d semitones above the lowest string, max_distance 2..5, against the brute-force specification" % (len(small3), 12 if q else 20)))
+        B = 999 if q else 10 ** 6
+        cl.append(Claim("get_note[t%d-%d]" % (lo, hi - 1), c20_get_note, params={"lo": lo, "hi": hi, "B": B}, group="c20_get_note", pre=[lambda ti, s, f: P["lo"] <= ti < P["hi"] and -P["B"] <= s <= P["B"] and -P["B"] <= f <= P["B"]], timeout=1200 if q else 3000, bounds="tunings %d..%d; string and fret: every integer with |x| <= %d (symbolic; the error message renders them)" % (lo, hi - 1, B)))
+    pref = PREF[::6] if q else PREF
+    for lo in range(0, len(pref), 6):
+        sub = pref[lo : lo + 6]
+        cl.append(Claim("lookup[%d-%d]" % (lo, lo + len(sub) - 1), c20_lookup, params={"pref": sub}, group="c20_lookup", pre=[lambda pi, ns, nc: 0 <= pi < len(P["pref"]) and 0 <= ns <= 8 and 0 <= nc <= 3], timeout=1200 if q else 3000, bounds="get_tunings / get_tuning: instrument strings %r; string count 0..8 symbolic, course count 0..3, each optional" % (sub,)))
+    small = [t for t in SMALL if t.count_strings() <= 4][:: (12 if q else 3)]
+    for k, t in enumerate(small):
+        cl.append(Claim("fingering[%s/%s]" % (t.instrument, t.description), c20_fingering, params={"tunings": [t], "maxn": 2, "span": 9 if q else 20}, group="c20_fingering", pre=[lambda ti, n, md: ti == 0 and 1 <= n <= P["maxn"] and ((md == 4) if P["span"] < 10 else (2 <= md <= 5))], timeout=1500 if q else 3200, bounds="find_fingering on %s %s: 1..2 notes with pitches symbolic within %d semitones above the lowest string, max_distance %s, against the brute-force specification" % (t.instrument, t.description, 9 if q else 20, "4" if q else "2..5")))
     six = [t for t in SMALL if t.count_strings() == 6][: (1 if q else 4)]
-    cl.append(Claim("fingering[6 strings]", c20_fingering, params={"tunings": six, "maxn": 2 if q else 3, "span": 10 if q else 16}, group="c20_fingering", pre=[lambda ti, n, md: 0 <= ti < len(P["tunings"]) and 1 <= n <= P["maxn"] and 2 <= md <= 5], timeout=1500 if q else 3200, bounds="find_fingering on %d six-string tunings: 1..%d notes, pitches symbolic" % (len(six), 2 if q else 3)))
+    for t in six:
+        cl.append(Claim("fingering6[%s/%s]" % (t.instrument, t.description), c20_fingering, params={"tunings": [t], "maxn": 2 if q else 3, "span": 7 if q else 16}, group="c20_fingering", pre=[lambda ti, n, md: ti == 0 and 1 <= n <= P["maxn"] and md == 4], timeout=1500 if q else 3200, bounds="find_fingering on the six-string %s %s: 1..%d notes, pitches symbolic within %d semitones, max_distance 4" % (t.instrument, t.description, 2 if q else 3, 7 if q else 16)))
     for ti in range(len(GUITARS) if not q else 2):
         cl.append(Claim("chord_fingering[%d]" % ti, c20_chord_fingering, params={"ti": ti}, group="c20_chord_fingering", pre=[lambda ti, ci, ri: ti == P["ti"] and 0 <= ci < (len(CHORDS) if not q else 3) and 0 <= ri < (12 if not q else 4)], timeout=1500 if q else 3200, per_path=120, bounds="find_chord_fingering on tuning %r: %d chord types x %d roots: every result sounds only and all chord pitch classes, span < 4, fingers <= 4, one entry per string" % (GUITARS[ti].description, len(CHORDS) if not q else 3, 12 if not q else 4)))
-    tabt = SMALL[:: (12 if q else 4)]
-    cl.append(Claim("tab_note", c20_tab_note, params={"tunings": tabt}, pre=[lambda ti, p, width: 0 <= ti < len(P["tunings"]) and 0 <= p <= 127 and 0 <= width < 3], timeout=1500 if q else 3200, bounds="tablature.from_Note on %d course-free tunings, pitch symbolic 0..127, widths 40/80/33: decoded pitch or RangeError" % len(tabt)))
-    cl.append(Claim("tab_container", c20_tab_container, params={"tunings": tabt}, pre=[lambda ti, p1, d, width: 0 <= ti < len(P["tunings"]) and 20 <= p1 <= 80 and 1 <= d <= 12 and 0 <= width < 3], timeout=1500 if q else 3200, bounds="from_NoteContainer: two notes, lower pitch 20..80 and distance 1..12 symbolic: decoded pitches or FingerError"))
-    cl.append(Claim("tab_bar", c20_tab_bar, params={"tunings": tabt}, pre=[lambda ti, si, base, wi: 0 <= ti < len(P["tunings"]) and 0 <= si < len(ENTRY_SHAPES) and 0 <= wi < 3], timeout=1500 if q else 3200, bounds="from_Bar: %d entry shapes (notes, chords, rests) x 3 widths x %d tunings; base pitch symbolic within the second string's first 10 frets" % (len(ENTRY_SHAPES), len(tabt))))
-    cl.append(Claim("tab_track", c20_tab_track, params={"tunings": tabt}, pre=[lambda ti, base, wi: 0 <= ti < len(P["tunings"]) and 0 <= wi < 3], timeout=1500 if q else 3200, bounds="from_Track / from_Composition: two bars, 3 page widths, %d tunings" % len(tabt)))
+    tabt = SMALL[:: (15 if q else 4)]
+    for t in tabt:
+        tag = "%s/%s" % (t.instrument, t.description)
+        par = {"tunings": [t]}
+        cl.append(Claim("tab_note[%s]" % tag, c20_tab_note, params=par, group="c20_tab_note", pre=[lambda ti, p, width: ti == 0 and 0 <= p <= 127 and 0 <= width < 3], timeout=1500 if q else 3200, bounds="tablature.from_Note on %s, pitch symbolic 0..127, widths 40/80/33: decoded pitch or RangeError" % tag))
+        cl.append(Claim("tab_container[%s]" % tag, c20_tab_container, params=par, group="c20_tab_container", pre=[lambda ti, p1, d, width: ti == 0 and 30 <= p1 <= (60 if q else 80) and 1 <= d <= (7 if q else 12) and 0 <= width < (1 if q else 3)], timeout=1500 if q else 3200, bounds="from_NoteContainer on %s: two notes, lower pitch and distance symbolic: decoded pitches or FingerError" % tag))
+        cl.append(Claim("tab_bar[%s]" % tag, c20_tab_bar, params=par, group="c20_tab_bar", pre=[lambda ti, si, base, wi: ti == 0 and 0 <= si < len(ENTRY_SHAPES) and 0 <= wi < 3], timeout=1500 if q else 3200, bounds="from_Bar on %s: %d entry shapes (notes, chords, rests) x 3 widths; base pitch symbolic within the second string's first 10 frets" % (tag, len(ENTRY_SHAPES))))
+        cl.append(Claim("tab_track[%s]" % tag, c20_tab_track, params=par, group="c20_tab_track", pre=[lambda ti, base, wi: ti == 0 and 0 <= wi < 3], timeout=1500 if q else 3200, bounds="from_Track / from_Composition on %s: two bars, 3 page widths" % tag))
     cl.append(Claim("no_fingering", c20_no_fingering, params={"tunings": tabt}, pre=[lambda ti: 0 <= ti < len(P["tunings"])], timeout=600, bounds="unplayable entries raise FingerError / RangeError (%d tunings)" % len(tabt)))
     return cl
